@@ -152,10 +152,13 @@ def recording(PL):
             PL._argmax_abs = o_arg
 
 
-def call(PL, name, args, eb, rsc, cb, record=False):
+def call(PL, name, args, eb, rsc, cb, record=False, positional_degree=False):
     """run generate(); returns dict(status, coefs, scale, raw_type, rec)"""
     cls = getattr(PL, REG[name][0])
     kw = dict(args)
+    pos = []
+    if positional_degree and "degree" in kw:
+        pos = [kw.pop("degree")]
     kw.update({"ensure_bounded": eb, "return_scale": rsc, "chebyshev_basis": cb})
     if REG[name][1] == "invrect" or REG[name][1] in ("cos", "sin", "inv"):
         kw.pop("cheb_samples", None)
@@ -164,9 +167,9 @@ def call(PL, name, args, eb, rsc, cb, record=False):
         with core.quiet():
             if record:
                 with recording(PL) as rec:
-                    r = cls().generate(**kw)
+                    r = cls().generate(*pos, **kw)
             else:
-                r = cls().generate(**kw)
+                r = cls().generate(*pos, **kw)
     except Exception as e:  # noqa
         return {"status": "raise", "exc": type(e).__name__, "msg": str(e)[:80], "rec": rec}
     scale = None
